@@ -152,9 +152,13 @@ fn types_equal_inner(
     let b_ty = types.resolve(b).expect("type b should exist in registry");
 
     // Capture a few variables to avoid some repetition later when we recurse.
+    // A type that is *used* inside another one (field, element, ...) must not only be the same
+    // (generic) definition, it must also be applied to the same arguments: `Option<u8>` and
+    // `Option<u16>` are one definition but not interchangeable as a field type.
     let mut types_equal_recurse =
         |a: u32, a_params: &GenericsList, b: u32, b_params: &GenericsList| -> bool {
             types_equal_inner(a, a_params, b, b_params, visited, types)
+                && nested_type_args_equal(a, a_params, b, b_params, visited, types)
         };
 
     // We'll lazily extend our type params only if the shapes match.
@@ -270,6 +274,58 @@ fn types_equal_inner(
         // Type defs don't match; types aren't the same!
         _ => false,
     }
+}
+
+/// For two types that are used at corresponding positions inside the types being compared:
+/// are they applied to equal generic arguments (modulo the generics of the containing types)?
+fn nested_type_args_equal(
+    a: u32,
+    a_parent_params: &GenericsList,
+    b: u32,
+    b_parent_params: &GenericsList,
+    visited: &mut HashSet<(u32, u32)>,
+    types: &PortableRegistry,
+) -> bool {
+    if a == b {
+        return true;
+    }
+    // The types themselves stand for the same generic param of a containing type.
+    if let (Some(a_idx), Some(b_idx)) = (
+        a_parent_params.index_for_type_id(a),
+        b_parent_params.index_for_type_id(b),
+    ) {
+        if a_idx == b_idx {
+            return true;
+        }
+    }
+    let a_ty = types.resolve(a).expect("type a should exist in registry");
+    let b_ty = types.resolve(b).expect("type b should exist in registry");
+    a_ty.type_params.len() == b_ty.type_params.len()
+        && a_ty
+            .type_params
+            .iter()
+            .zip(b_ty.type_params.iter())
+            .all(|(a_param, b_param)| match (a_param.ty, b_param.ty) {
+                (Some(a_arg), Some(b_arg)) => {
+                    types_equal_inner(
+                        a_arg.id,
+                        a_parent_params,
+                        b_arg.id,
+                        b_parent_params,
+                        visited,
+                        types,
+                    ) && nested_type_args_equal(
+                        a_arg.id,
+                        a_parent_params,
+                        b_arg.id,
+                        b_parent_params,
+                        visited,
+                        types,
+                    )
+                }
+                (None, None) => true,
+                _ => false,
+            })
 }
 
 /// Just a small helper for the [`types_equal_inner`] function, to track where generic params
